@@ -689,31 +689,21 @@ func (o *FilterOptimizer) unionRange(l, r *ScanType) *ScanType {
 		return &ScanType{FULL, nil}
 	}
 
-	if inRange(lstart, lend, rstart, false) && !inRange(lstart, lend, rend, true) {
-		// | LS | RS | LE | RE |
-		nstart = lstart
-		nend = rend
-	} else if inRange(rstart, rend, lstart, false) && !inRange(rstart, rend, lend, true) {
-		// | RS | LS | RE | LE |
-		nstart = rstart
-		nend = lend
-	} else if inRange(lstart, lend, rstart, false) && inRange(lstart, lend, rend, true) {
-		// | LS | RS | RE | LE |
-		nstart = lstart
-		nend = lend
-	} else if inRange(rstart, rend, lstart, false) && inRange(rstart, rend, lend, true) {
-		// | RS | LS | LE | RE |
-		nstart = rstart
-		nend = rend
-	} else if !inRange(lstart, lend, rstart, false) && !inRange(lstart, lend, rend, true) {
-		if inRange(lstart, rstart, lend, true) {
-			// | LS | LE | RS | RE |
+	// The union is covered by the range from the smaller start to the
+	// greater end, nil means unbounded. For two disjoint ranges this also
+	// covers the gap between them, the filter drops those keys
+	if lstart != nil && rstart != nil {
+		if bytes.Compare(lstart, rstart) <= 0 {
 			nstart = lstart
-			nend = rend
-		} else if inRange(rstart, lstart, rend, true) {
-			// | RS | RE | LS | LE |
+		} else {
 			nstart = rstart
+		}
+	}
+	if lend != nil && rend != nil {
+		if bytes.Compare(lend, rend) >= 0 {
 			nend = lend
+		} else {
+			nend = rend
 		}
 	}
 
